@@ -337,6 +337,9 @@ static void BuildExpressions(int p3n)
    static const char * SOPS[14] = { "==", "<", ">", "<=", ">=", "!=", "startswith", "endswith", "contains", "isstartof", "isendof", "issubstringof", "matches", "matchesregex" };
    static const char * SVALS[3] = { "\"ab\"", "a", "(string)aB" };
    for (int i = 0; i < 14; i++) for (int v = 0; v < 3; v++) p1.push_back(std::string("f ") + SOPS[i] + " " + (i == 12 ? (v == 0 ? "\"a*\"" : v == 1 ? "a?" : "(string)?B") : i == 13 ? "\"^a.*$\"" : SVALS[v]));
+   // keyword-looking words that are QUOTED or cast to string are strings (the inference rule applies to bare words only)
+   static const char * KWSTR[6] = { "f == \"true\"", "f != \"false\"", "f == (string)true", "f startswith \"true\"", "f == \"1\"", "f == (string)1.5" };
+   for (int i = 0; i < 6; i++) p1.push_back(KWSTR[i]);
    static const char * FIELDS[8] = { "f:0 >= 1", "f:1 >= 1", "f:2 >= 1", "f|1 <= 1", "f:1|1 <= 1", "z|0.5f >= 0.5f", "f:1|ab startswith \"a\"", "z|ab == (string)ab" };
    for (int i = 0; i < 8; i++) p1.push_back(FIELDS[i]);
    static const char * EX[7] = { "exists f", "exists (int32)f", "exists (string)f", "exists f:1", "exists (int32)f:1", "exists z", "exists (bool)f" };
